@@ -344,7 +344,7 @@ def run_shard(shard, rec, tier, seed):
     for i in range(shard["count"]):
         rng = harness.rng_for(seed, ID, shard["name"], i)
         case = gen.gen_chart(rng, "hostile" if i % 2 else "realistic", n_tracks=rng.choice([1, 2, 3]), n_groups=rng.choice([2, 8, 30]),
-                             n_globals=rng.choice([2, 10, 80]), n_tempos=rng.choice([1, 3, 8]), pad=i % 4 == 0)
+                             n_globals=rng.choice([0, 2, 10, 80]), n_tempos=rng.choice([1, 3, 8]), pad=i % 4 == 0)
         run_case(rec, rng, case, i)
         if rec.full:
             break
